@@ -162,7 +162,7 @@ def gen_producer(rng, sh, ops, small=True):
 def gen_param(rng, sh, allow_slot=True):
     r = rng.random()
     if allow_slot and r < 0.12:
-        cands = [i for i in range(len(sh.n)) if sh.n[i] and not sh.intarr[i]]
+        cands = [i for i in range(len(sh.n)) if sh.n[i] and sh.kind[i] >= 0]   # the Vec stored in a mesh slot
         if cands:
             o = rng.choice(cands)
             return ["slot", o, rng.randrange(sh.n[o])]
